@@ -25,9 +25,11 @@ def describe(tier):
         rule='E2xE4: all forests with <= %d nodes over leaf kinds %s and paired kinds %s%s; all forests with <= %d nodes in which one '
              'element at a time carries one of %d attribute sets; HTML and XML mode (void names are written as pairs in XML); every '
              'position 0..len; match, balanced_outward, balanced_inward. State = (document, mode, position); transition = caret +1 / '
-             'one more node.' % (b['plain'], D.LEAVES, D.PAIRED,
+             'one more node. Forests with a comment / CDATA / PI / script / style / text node are also emitted with each of the '
+             'alternative bodies %s (terminator preceded by its own first character, empty body, body made of tag-opening '
+             'characters).' % (b['plain'], D.LEAVES, D.PAIRED,
                                  '; <= %d nodes with leaf kinds %s' % (b['small'], D.LEAVES_SMALL) if b['small'] else '',
-                                 b['attrs'], len(D.ATTR_SETS)),
+                                 b['attrs'], len(D.ATTR_SETS), D.BODY_VARIANTS[1:]),
         nontrivial='the position lies strictly inside at least one element.',
         bounds=b,
         assumptions=['balanced_inward exactly at element boundaries and ill-formed documents are left unspecified (C16 covers totality)'],
@@ -41,6 +43,18 @@ def shards(tier):
 
 
 def docs(tier):
+    "(forest, body variant)"
+    for f in docs0(tier):
+        yield f, 0
+    b = BOUNDS[tier]
+    for n in range(1, b['plain'] + 1):
+        for f in D.forests(n):
+            if D.uses_body(f):
+                for v in range(1, len(D.BODY_VARIANTS)):
+                    yield f, v
+
+
+def docs0(tier):
     b = BOUNDS[tier]
     for n in range(1, b['plain'] + 1):
         for f in D.forests(n):
@@ -112,11 +126,11 @@ def check_pos(text, elements, xml, p):
 def run_shard(shard, ctx, tier):
     k, of = shard['k'], shard['of']
     text = None
-    for idx, forest in enumerate(docs(tier)):
+    for idx, (forest, bv) in enumerate(docs(tier)):
         if idx % of != k:
             continue
         for xml in (False, True):
-            text, elements = D.emit(forest, xml)
+            text, elements = D.emit(forest, xml, D.BODY_VARIANTS[bv])
             ctx.states += 1
             if not xml:
                 # calls that rely on the default options, made after calls with explicit options, behave like explicit defaults
@@ -139,7 +153,7 @@ def run_shard(shard, ctx, tier):
                     ctx.nontrivial += 1
                 ctx.outcome((len(enc), elements[enc[0]]['kind'] if enc else None, xml))
                 for cls, d in check_pos(text, elements, xml, p):
-                    ctx.violation(cls, dict(forest=forest, xml=xml, pos=p, text=text), d)
+                    ctx.violation(cls, dict(forest=forest, xml=xml, pos=p, text=text, body=bv), d)
     if text:
         ctx.sample(dict(document=text, positions=len(text) + 1))
     if k == 0:
@@ -166,7 +180,7 @@ def check_case(case):
         if (a and tag_tuple(a)) != (b and tag_tuple(b)):
             return [('match:default-options-differ-from-explicit-defaults', dict(default_call=a and tag_tuple(a), explicit_call=b and tag_tuple(b)))]
         return []
-    text, elements = D.emit(forest, case['xml'])
+    text, elements = D.emit(forest, case['xml'], D.BODY_VARIANTS[case.get('body', 0)])
     return check_pos(text, elements, case['xml'], case['pos'])
 
 
